@@ -73,6 +73,7 @@ type Exec struct {
 	stack     []*ssa.Function
 	quotSplits int
 	pcDirty   bool
+	roundings [][2]string
 	defCache  map[string]string
 	radixDerived int
 	floorLemmas int
@@ -405,6 +406,17 @@ func (e *Exec) global(g *ssa.Global) *Value {
 	if g.Pkg != nil && !e.initDone[g.Pkg] {
 		// global of a package whose initialiser is not executed: only error sentinels are materialised
 		elem := g.Type().(*types.Pointer).Elem()
+		if g.Pkg.Pkg.Path() == "time" && (g.Name() == "UTC" || g.Name() == "Local") {
+			// time model: a nil location is UTC, the local location is an opaque cell
+			p := new(Value)
+			if g.Name() == "Local" {
+				*p = e.localLoc()
+			} else {
+				*p = (*Value)(nil)
+			}
+			e.globals[g] = p
+			return p
+		}
 		if types.Identical(elem, errorType) {
 			p := new(Value)
 			*p = e.newError(g.Pkg.Pkg.Path() + "." + g.Name())
